@@ -11,6 +11,7 @@ import (
 	"github.com/herohde/morlock/pkg/board"
 	"github.com/herohde/morlock/pkg/board/fen"
 	"github.com/herohde/morlock/pkg/engine"
+	"github.com/herohde/morlock/pkg/engine/uci"
 	"github.com/herohde/morlock/pkg/eval"
 	"github.com/herohde/morlock/pkg/search"
 	"github.com/herohde/morlock/pkg/search/searchctl"
@@ -173,4 +174,59 @@ func casesIterative(c *caseCtx) {
 		}
 	}
 	fmt.Printf("COUNT matestop %d\n", 2*len(mateFENs))
+
+	// the hard limit through the real driver: whatever else the go line carries (increments, a long
+	// movestogo), an unbounded search must be answered before the clock of the side to move runs out
+	type clk struct {
+		line  string
+		moves string
+		left  time.Duration
+	}
+	clocks := []clk{
+		{"go wtime 1000 btime 1000 winc 30000 binc 30000 movestogo 4", "", time.Second},
+		{"go wtime 1000 btime 1000 winc 30000 binc 30000 movestogo 4", " moves e2e4", time.Second},
+		{"go wtime 800 btime 60000 winc 20000 binc 0 movestogo 1", "", 800 * time.Millisecond},
+		{"go wtime 60000 btime 700 winc 0 binc 60000", " moves e2e4", 700 * time.Millisecond},
+		{"go wtime 900 btime 900 movestogo 1", "", 900 * time.Millisecond},
+	}
+	nclk := 0
+	for _, ck := range clocks {
+		e, opts := bundledEngine(ctx, "morlock", 0, 0, 0, false, 1)
+		in := make(chan string, 4)
+		_, out := uci.NewDriver(ctx, e, in, opts...)
+		in <- "position startpos" + ck.moves
+		in <- "isready"
+		for l := range out {
+			if l == "readyok" {
+				break
+			}
+		}
+		t0 := time.Now()
+		in <- ck.line
+		answered := false
+		deadline := time.After(ck.left + 1500*time.Millisecond)
+	waitb:
+		for {
+			select {
+			case l, ok := <-out:
+				if !ok {
+					break waitb
+				}
+				if strings.HasPrefix(l, "bestmove") {
+					answered = true
+					break waitb
+				}
+			case <-deadline:
+				break waitb
+			}
+		}
+		el := time.Since(t0)
+		nclk++
+		// generous slack for a loaded machine: the answer is due at the hard limit, well before the flag
+		if !answered || el > ck.left+500*time.Millisecond {
+			fmt.Printf("IMPLVIOL uciclock position startpos%s; %s :: no bestmove within the %v left on the clock of the side to move (waited %v) prop=C15 key=past-the-clock\n", ck.moves, ck.line, ck.left, el.Round(time.Millisecond))
+		}
+		close(in)
+	}
+	fmt.Printf("COUNT uciclock %d\n", nclk)
 }
